@@ -27,6 +27,7 @@ SOURCE_FUNCS = (
         "get_agents_in_radius", "get_k_nearest_agents", "in_bounds", "torus_correct")]
     + [(_AGT, "ContinuousSpaceAgent")]          # position getter/setter, __init__, remove, the two neighbour forms
     # agent.remove() / model.remove_all_agents() as far as they reach the space (round 3)
+    + [(_LEG, "warn_if_agent_has_position_already")]      # re-placing a placed legacy agent only warns (round 4)
     + [("mesa/agent.py", "Agent.remove"), ("mesa/model.py", "Model.register_agent"),
        ("mesa/model.py", "Model.deregister_agent"), ("mesa/model.py", "Model.remove_all_agents")]
 )
@@ -199,6 +200,16 @@ def _gen_history(rng, space, nd, torus, bounds, cap, nops, maxagents=9):
             ops.append(["clear"])                               # model.remove_all_agents()
             removed += list(placed)
             placed.clear()
+            continue
+        if space == "legacy" and n and rng.random() < 0.05:
+            a = rng.choice(list(placed))
+            if rng.random() < 0.5:
+                ops.append(["agent_remove", a])          # leaves the model, stays in the space
+            else:
+                p = newpos()                             # place_agent of an agent that is already placed (warns, moves)
+                ops.append(["place", a, p, _form(rng, space, p)])
+                if torus or _inside_half(bounds, p):
+                    placed[a] = p
             continue
         if n >= 2 and rng.random() < 0.05:
             # coincidence probes: a query centred exactly on an agent, radius 0 / tiny, centre in and out
@@ -524,7 +535,8 @@ def _run_legacy(case):
             else:
                 rows.append([o._label] + [_sc(v, bad) for v in o.pos])
         haspos = sorted(a for a, o in objs.items() if o.pos is not None)
-        v = [len(members)] + _rows_in_order(rows) + [SEP] + haspos      # space.agents in ITS order
+        gone = sorted(a for a, o in objs.items() if o not in model.agents)      # Agent.remove() was called on them
+        v = [len(members)] + _rows_in_order(rows) + [SEP] + haspos + [SEP] + gone   # space.agents in ITS order
         if check and not state["dead"]:
             labels = [o._label for o in members]
             if sorted(labels) != sorted(shadow):
@@ -562,7 +574,7 @@ def _run_legacy(case):
                 _, a, p, form = op
                 o = obj(a)
                 member = o in space._agent_to_index
-                if len(p) != 2 or (kind == "place" and (member or o.pos is not None)) or (kind == "move" and not member):
+                if len(p) != 2 or (kind == "move" and not member):
                     obs.append([-2])
                     continue
                 before = view(i, check=False)
@@ -570,7 +582,7 @@ def _run_legacy(case):
                 try:
                     (space.place_agent if kind == "place" else space.move_agent)(o, _to_py(p, form))
                 except Exception as e:  # noqa: BLE001
-                    if want is None and "out of bounds" in str(e):
+                    if want is None and type(e) is Exception:      # the kind of error, never its message
                         after = view(i, check=False)
                         if after != before and not state["dead"]:
                             fails.add(f"C10/legacy/{kind}_agent/rejected-call-changed-state", i, f"{kind}_agent(agent {a}, x16 {p}) on the bounded space raised '{e}' but changed the space: before {before}, after {after}")
@@ -593,7 +605,7 @@ def _run_legacy(case):
                 try:
                     space.remove_agent(o)
                 except Exception as e:  # noqa: BLE001
-                    if a not in shadow and "does not exist" in str(e):
+                    if a not in shadow and type(e) is Exception:
                         obs.append([-1, E_NOTIN, SEP] + view(i))
                         continue
                     raise
@@ -601,6 +613,11 @@ def _run_legacy(case):
                     fails.add("C10/legacy/remove_agent/absent-agent-accepted", i, f"remove_agent(agent {a}) did not raise although the agent is not in the space")
                     state["dead"] = True
                 shadow.pop(a, None)
+                obs.append([SEP] + view(i))
+            elif kind == "agent_remove":
+                # Agent.remove() of a plain mesa.Agent: leaves the model, NOT the legacy space (documented boundary:
+                # the statement's "removed" is removal from the space) - the shadow does not change
+                obj(op[1]).remove()
                 obs.append([SEP] + view(i))
             elif kind == "nbrs":
                 _, q, r, ic = op
@@ -658,7 +675,7 @@ def _site(kind):
             "diffs": "calculate_difference_vector", "nbr_radius": "get_neighbors_in_radius",
             "nbr_near": "get_nearest_neighbors", "pair": "calculate_distances",
             "dists_of": "calculate_distances", "diffs_of": "calculate_difference_vector",
-            "clear": "remove_all_agents"}.get(kind, kind)
+            "clear": "remove_all_agents", "agent_remove": "Agent.remove"}.get(kind, kind)
 
 
 def _run_exp(case):
@@ -775,7 +792,7 @@ def _run_exp(case):
                     try:
                         live[a].position = _to_py(p, form)
                     except ValueError as e:
-                        if want is None and "outside the bounds" in str(e):
+                        if want is None:
                             after = view(i, check=False)
                             if after != before and not state["dead"]:
                                 fails.add("C10/exp/position/rejected-call-changed-state", i, f"agent {a}.position = x16 {p} raised but changed the space: before {before}, after {after}")
@@ -1371,7 +1388,7 @@ def _run_float(case):
                 try:
                     call()
                 except Exception as e:  # noqa: BLE001
-                    if acc is None and ("out of bounds" in str(e) or "outside the bounds" in str(e)):
+                    if acc is None and type(e) in (Exception, ValueError):
                         if snapshot() != before:
                             fail(f"{K}/rejected-call-changed-state", i, f"{op} was rejected ('{e}') but changed the space: before {before}, after {snapshot()}")
                             fails.add(f"C18/continuous/{'legacy-' + kind if legacy else 'exp-position'}", i, f"rejected {op} changed state")
@@ -1396,7 +1413,7 @@ def _run_float(case):
                     try:
                         space.remove_agent(objs[a])
                     except Exception as e:  # noqa: BLE001
-                        if a not in shadow and "does not exist" in str(e):
+                        if a not in shadow and type(e) is Exception:
                             check_state(i)
                             obs.append([-1, len(shadow)])
                             continue
@@ -1559,6 +1576,8 @@ def coq_case(case):
                 ops.append(f"LDistance {_pt(op[1])} {_pt(op[2])}")
             elif k == "heading":
                 ops.append(f"LHeading {_pt(op[1])} {_pt(op[2])}")
+            elif k == "agent_remove":
+                ops.append(f"LAgentRemove {L.z(op[1])}")
             else:
                 raise ValueError(k)
         cfg = f"{{| lc_bounds := {_bs(case['bounds'])}; lc_torus := {L.b(case['torus'])} |}}"
